@@ -10,8 +10,8 @@ STORE_FILES = ["modeling/mesh.go", "modeling/tri.go", "modeling/line.go", "model
 
 CFG = dict(
     gen=[dict(tool="facts", mode="c01.stores", out="C01Stores.lean", args=STORE_FILES),
-         # sharing summary of every exported Mesh-returning function of modeling/mesh.go (callees resolved in mesh.go and math/trs)
-         dict(tool="facts", mode="c01.classes", out="C01Classes.lean", args=["modeling/mesh.go", "math/trs"])],
+         # sharing summary of every exported Mesh-returning function of modeling/mesh.go and of modeling/meshops (callees resolved in those and math/trs)
+         dict(tool="facts", mode="c01.classes", out="C01Classes.lean", args=["modeling/mesh.go", "math/trs", "+modeling/meshops"])],
     modules=["PolyVerif.Props.C01", "PolyVerif.Props.C01Refine", "PolyVerif.Props.C01Classes"],
     theorems=["op_frame", "op_writes_fresh_only", "step_immutable", "history_immutable",
               "derivations_commute_partial", "appendInPlace_breaks", "store_sites_fresh",
